@@ -278,7 +278,7 @@ CLAIMED = {
              'repository\'s newline splitter) - none uses str.splitlines; the ~140 modules that handle texts as values '
              'contain no str.splitlines, no filecmp and no binary-mode open, so every access sees the text in text '
              'mode; the freezing wrapper takes all five views from the one contents object it caches on first use and '
-             'produces it via write_to; no text is opened with a newline= argument and the spooled buffer keeps "\\n". The in-memory line splitter gives no empty line element; no one-shot iterator is kept in an attribute anywhere (a cached as_lines stays readable).',
+             'produces it via write_to; no text is opened with a newline= argument and the spooled buffer keeps "\\n". The in-memory line splitter gives no empty line element; no one-shot iterator is kept in an attribute anywhere (a cached as_lines stays readable); the spooled text file never writes to the in-memory buffer after the roll-over to disk replaced it.',
         design='DESIGN.md section 5, C14',
         note='Representation agreement only; equality of characters across representations and buffer-size '
              'boundaries are not decided.'),
